@@ -821,6 +821,7 @@ pub trait TAsyncInputProtocol: Send {
             TType::I64 => self.read_i64().await.map(|_| ()),
             TType::Double => self.read_double().await.map(|_| ()),
             TType::Binary => self.read_string().await.map(|_| ()),
+            TType::Uuid => self.read_uuid().await.map(|_| ()),
             TType::Struct => {
                 self.read_struct_begin().await?;
                 loop {
